@@ -75,7 +75,7 @@ CHECKS["C16"] = dict(
          "varint frame codec underneath. Non-trivial = nesting >= 2, an integer beyond 2^53, a malformed frame, invalid UTF-8 or > 1024 bytes of text.",
     required=["mode:text", "mode:json-roundtrip", "mode:json-frame", "mutation:truncate", "mutation:toplevel", "mutation:garbage",
               "mutation:escape", "mutation:trailing", "json-bigint:usenum=true", "json-bigint:usenum=false", "json-nested", "text-invalid-utf8",
-              "layer:channel", "carrier:frag", "out:map", "out:raw", "out:struct"],
+              "layer:channel", "carrier:frag", "out:map", "out:raw", "out:struct", "text-sequence"],
     assumptions=["encoding/json is the reference for what a complete valid JSON object is",
                  "without number preservation, literals outside float64 are outside the round-trip contract"],
 )
@@ -381,7 +381,7 @@ CHECKS["C20"] = dict(
          "is reported only if it reproduces on an immediate second run of that timeline. Non-trivial (per case) = some timeline had a "
          "stimulus within 100 ms of an expiry, an inactive within 30 ms of one, a panicking or closing event handler.",
     required=["handlers:read", "handlers:write", "handlers:both", "idle-events-observed", "inactive", "inactive-near-expiry",
-              "stimulus-near-expiry", "event-handler-panicked", "closed-from-event-handler"],
+              "stimulus-near-expiry", "event-handler-panicked", "closed-from-event-handler", "slow-downstream-inactive", "write-after-inactive"],
     assumptions=["real time with a slack of 400 ms between the handler's decision and the harness timestamp (measured lateness in the design probe: <= 2.2 ms for 600 concurrent timelines); a false alarm needs a 400 ms stall of one goroutine twice in a row",
                  "exception handlers do not panic"],
 )
